@@ -34,7 +34,7 @@ man = {
     "setup_cmd": "./setup.sh",
     "hooks": {
         "guard": "verif",
-        "enable": "go build -tags verif: the contracts_verif.go files hold the //@ contracts as comments and compile to nothing; server/commitlog/crashpoint_verif.go makes crashPoint(name) call a hook variable that the C05 harness sets (crashpoint.go, without the tag, is a no-op)",
+        "enable": "go build -tags verif: the contracts_verif.go files hold the //@ contracts as comments and compile to nothing; server/commitlog/crashpoint_verif.go makes crashPoint(name) call a hook variable that the C05 harness sets (crashpoint.go, without the tag, is a no-op); server/verifpoint_verif.go does the same for verifPoint(name), the scheduling points the replay scenarios use to force one interleaving (verifpoint.go, without the tag, is a no-op)",
         "baseline_off_cmd": "cd /repo && . /verif/env.sh && go build ./... && go test -vet=off -count=1 -timeout 25m ./...",
         "source_commits": hook_commits,
         "add_only": True,
